@@ -3,12 +3,14 @@
   Runs the model's executable definitions; the Go harness runs the implementation on the same ops.
 -/
 import SeataModel.Driver.C12
+import SeataModel.Driver.C13
 
 open Seata.Driver
 
 def dispatch (prop : String) (ws : List String) : String :=
   match prop with
   | "C12" => C12.handle ws
+  | "C13" => C13.handle ws
   | _ => "bad-prop"
 
 partial def loop (hin : IO.FS.Stream) (hout : IO.FS.Stream) : IO Unit := do
